@@ -1,7 +1,9 @@
 package props
 
 import (
+	"fmt"
 	"go/ast"
+	"go/constant"
 	"go/token"
 	"go/types"
 	"regexp"
@@ -16,7 +18,7 @@ import (
 func init() {
 	register(&Property{
 		ID:       "C17",
-		Patterns: []string{"./task/backend/scheduler"},
+		Patterns: []string{"./task/backend/scheduler", "./task/backend/coordinator"},
 		Run:      runC17,
 		Explanation: "Scheduler invariants as structure: the queue's comparator is the strict lexicographic order (when, id), enumerated over all orderings; the per-task index nextTime[id] always holds the `when` under which the task's item sits in the queue (Schedule and process store the inserted item's own when; release and re-schedule delete with the indexed when), so a task can be found and removed; " +
 			"the dispatch iterator sends nothing before next+offset, records a dispatched item for delete and re-insert (or drops it via onErr) and never blocks (select with default); the worker is chosen from the task id and the worker count only (same task ⇒ same sequential worker ⇒ never concurrent with itself); " +
@@ -60,6 +62,12 @@ func runC17(c *core.Ctx) {
 		requires: map[string]bool{"process": true, "iterator": true, "release": true, "resetTimer": true},
 		exempt:   map[string]string{"NewScheduler": "constructor: the scheduler is not published yet (its loop closure locks before every access)"}})
 	c17LoopLocks(c, pkg)
+	c17ProbeRules(c, pkg)
+	if cp := c.P.Pkg("task/backend/coordinator"); cp != nil {
+		c17Coordinator(c, cp)
+	} else {
+		c.Undecided("C17.inactive", "anchor:task/backend/coordinator", token.NoPos, "package not loaded")
+	}
 	n := ruleMustHold(c, "C17.lockflow", pkg, holdSpec{Typ: "TreeScheduler", Mu: "mu", Fields: map[string]bool{"priorityQueue": true, "nextTime": true, "when": true},
 		Why: "the queue, the per-task index and the armed time are written by Schedule/Release from API goroutines and by the dispatch loop: outside the lock the index and the queue are seen out of step (a task queued twice or never) or the btree is read while it is rebalanced"})
 	c.Floor("C17.lockflow", "selections of guarded TreeScheduler fields", n, 10)
@@ -540,4 +548,180 @@ func c17LoopLocks(c *core.Ctx, pkg *packages.Package) {
 		}
 		return true
 	})
+}
+
+// c17ProbeRules: F82-F85.
+func c17ProbeRules(c *core.Ctx, pkg *packages.Package) {
+	info := pkg.TypesInfo
+	c.Rule("C17.rearm", "A1: F82: where the scheduler loop finds the first item still in the future (under a test X.After(Y)), the timer is reset with the positive distance X.Sub(Y), never Y.Sub(X): a negative duration fires at once and the loop spins on the lock until the item is due")
+	c.Rule("C17.offset", "A3: F83: the offset of an item, kept in whole seconds, is the schedulable's offset rounded up (math.Ceil), not cut off by the integer conversion: a cut fraction lets every run but the first start before occurrence+offset")
+	c.Rule("C17.inactive", "A1: F84: Coordinator.TaskCreated schedules a task only when it is not inactive; TaskUpdated releases the task whenever its new status is inactive (whatever the old status) and schedules it otherwise")
+	c.Rule("C17.crontable", "A8: F85: in the cron parser this build uses, every bit set in the step table entry skips[k] (the seconds/minutes at which */(k+1) fires) is a multiple of k+1 (the table entries are constant expressions, evaluated by the type checker)")
+
+	// F82
+	n := 0
+	for _, f := range core.AllFuncs(pkg) {
+		ast.Inspect(f.Decl.Body, func(nd ast.Node) bool {
+			is, ok := nd.(*ast.IfStmt)
+			if !ok {
+				return true
+			}
+			call, ok := ast.Unparen(is.Cond).(*ast.CallExpr)
+			if !ok || len(call.Args) != 1 {
+				return true
+			}
+			sel, ok := call.Fun.(*ast.SelectorExpr)
+			if !ok || sel.Sel.Name != "After" {
+				return true
+			}
+			later, earlier := types.ExprString(sel.X), types.ExprString(call.Args[0])
+			ast.Inspect(is.Body, func(k ast.Node) bool {
+				rc, ok := k.(*ast.CallExpr)
+				if !ok || len(rc.Args) != 1 {
+					return true
+				}
+				rs, ok := rc.Fun.(*ast.SelectorExpr)
+				if !ok || rs.Sel.Name != "Reset" {
+					return true
+				}
+				sub, ok := ast.Unparen(rc.Args[0]).(*ast.CallExpr)
+				if !ok || len(sub.Args) != 1 {
+					return true
+				}
+				ss, ok := sub.Fun.(*ast.SelectorExpr)
+				if !ok || ss.Sel.Name != "Sub" {
+					return true
+				}
+				n++
+				a, b := types.ExprString(ss.X), types.ExprString(sub.Args[0])
+				c.Check(a == later && b == earlier, "C17.rearm", f.Name()+"#future-head", rc.Pos(), "under %s.After(%s) the timer is reset with %s.Sub(%s): that is negative (now minus the item's time), the timer fires at once and the loop spins — about two million lock acquisitions a second — until the item is due, which can be an hour away when the most frequent task was released", later, earlier, a, b)
+				return true
+			})
+			return true
+		})
+	}
+	c.Floor("C17.rearm", "timer resets under an After test", n, 1)
+
+	// F83
+	if fn := c.Need("C17.offset", "task/backend/scheduler", "TreeScheduler", "Schedule"); fn != nil {
+		found, ceil := false, false
+		ast.Inspect(fn.Decl.Body, func(nd ast.Node) bool {
+			kv, ok := nd.(*ast.KeyValueExpr)
+			if !ok {
+				return true
+			}
+			if k, ok := kv.Key.(*ast.Ident); !ok || k.Name != "Offset" {
+				return true
+			}
+			found = true
+			ast.Inspect(kv.Value, func(k ast.Node) bool {
+				if call, ok := k.(*ast.CallExpr); ok {
+					if m := core.Callee(info, call); m != nil && m.Pkg() != nil && m.Pkg().Path() == "math" && m.Name() == "Ceil" {
+						ceil = true
+					}
+				}
+				return true
+			})
+			return true
+		})
+		c.Check(found && ceil, "C17.offset", "TreeScheduler.Schedule#offset", fn.Decl.Pos(), "the item's offset is the schedulable's offset in seconds converted to an integer without rounding up (Offset found: %v, math.Ceil: %v): with an offset of 1.5s every occurrence after the first runs at occurrence+1s, half a second before occurrence+offset", found, ceil)
+	}
+
+	// F85: the cron dependency's step table
+	if dep := c.P.ByPath["github.com/influxdata/cron"]; dep == nil || len(dep.Syntax) == 0 {
+		c.Undecided("C17.crontable", "cron#skips", token.NoPos, "github.com/influxdata/cron not loaded from source")
+	} else {
+		entries := 0
+		for _, file := range dep.Syntax {
+			for _, d := range file.Decls {
+				gd, ok := d.(*ast.GenDecl)
+				if !ok {
+					continue
+				}
+				for _, sp := range gd.Specs {
+					vs, ok := sp.(*ast.ValueSpec)
+					if !ok || len(vs.Names) != 1 || vs.Names[0].Name != "skips" || len(vs.Values) != 1 {
+						continue
+					}
+					cl, ok := vs.Values[0].(*ast.CompositeLit)
+					if !ok {
+						continue
+					}
+					for k, el := range cl.Elts {
+						vt, ok := dep.TypesInfo.Types[el]
+						if !ok || vt.Value == nil {
+							continue
+						}
+						v64, okv := constant.Uint64Val(constant.ToInt(vt.Value))
+						if !okv {
+							continue
+						}
+						entries++
+						step := k + 1
+						for bit := 0; bit < 60; bit++ {
+							if v64&(1<<uint(bit)) != 0 && bit%step != 0 {
+								c.Fail("C17.crontable", fmt.Sprintf("cron#skips[%d]", k), el.Pos(), "the step table of the cron parser lets */%d fire at second/minute %d, which is not a multiple of %d (%s): cron `*/%d * * * *` runs at hh:00, hh:%d AND hh:%d — 24 extra runs a day of every such task; the executor is invoked for an occurrence that is not one of the schedule", step, bit, step, c.P.Pos(el.Pos()), step, step, bit)
+							}
+						}
+					}
+				}
+			}
+		}
+		c.Floor("C17.crontable", "constant entries of the cron step table", entries, 20)
+	}
+}
+
+// c17Coordinator: F84.
+func c17Coordinator(c *core.Ctx, pkg *packages.Package) {
+	info := pkg.TypesInfo
+	for _, name := range []string{"TaskCreated", "TaskUpdated"} {
+		fn := c.Need("C17.inactive", "task/backend/coordinator", "Coordinator", name)
+		if fn == nil {
+			continue
+		}
+		// the task whose status decides: the *Task parameter (the last one: `task`, resp. `to`)
+		var taskP string
+		for _, fl := range fn.Decl.Type.Params.List {
+			if strings.HasSuffix(types.ExprString(fl.Type), "Task") && len(fl.Names) > 0 {
+				taskP = fl.Names[len(fl.Names)-1].Name
+			}
+		}
+		eng := &an.Engine{Prog: c.P,
+			TrackCall: func(call *ast.CallExpr, callee *types.Func) string {
+				if callee != nil && (callee.Name() == "Schedule" || callee.Name() == "Release") {
+					return callee.Name()
+				}
+				return ""
+			},
+			Classify: func(a an.Atom) (string, bool) {
+				if a.Op == token.EQL && a.L == taskP+".Status" && strings.Contains(a.R, "TaskInactive") {
+					return "inactive", false
+				}
+				if a.Op == token.NEQ && a.L == taskP+".Status" && strings.Contains(a.R, "TaskInactive") {
+					return "inactive", true
+				}
+				if k, ok := an.ErrNilAtom(info, a); ok && an.LastCall(k) == "NewSchedulableTask" {
+					return "badtask", true
+				}
+				return "", false
+			}}
+		paths, err := eng.Run(fn)
+		if err != nil {
+			c.Undecided("C17.inactive", "Coordinator."+name, fn.Decl.Pos(), "%v", err)
+			continue
+		}
+		an.CheckTable(c, "C17.inactive", "Coordinator."+name, paths, an.Table{Atoms: []string{"badtask", "inactive"},
+			Outcome: func(p *an.Path) string { return an.Seq(p, "Schedule", "Release") },
+			Expect: func(a map[string]bool) string {
+				switch {
+				case a["badtask"]:
+					return ""
+				case a["inactive"] && name == "TaskUpdated":
+					return "Release"
+				case a["inactive"]:
+					return ""
+				}
+				return "Schedule"
+			}})
+	}
 }
